@@ -66,6 +66,10 @@ func init() {
 		if seenPk != len(libPkgs) {
 			return "", fmt.Errorf("expected %d library packages, found %d", len(libPkgs), seenPk)
 		}
+		aliasViolations, leaves, err := c13Alias(r)
+		if err != nil {
+			return "", err
+		}
 		var b strings.Builder
 		b.WriteString(header("ConcFacts", "type-checked AST of the library packages of /repo"))
 		emit := func(name, doc string, xs []string) {
@@ -90,7 +94,7 @@ func init() {
 			b.WriteString("]\n\n")
 		}
 		emit("globalWrites", "package-level variables written outside init: `pkg.var kind in func`", globalWrites)
-		emit("appendBases", "package-level slices used as the base of append: `pkg.var in func`", appendBases)
+		emit("appendBases", "package-level slices used as the base of append: `pkg.var` (their cap == len is checked at run time through the VerifGlobals hook)", appendBases)
 		emit("globalArgs", "package-level slices/maps passed as call arguments: `pkg.var -> callee#argIndex`", globalArgs)
 		{ // the distinct callee#argIndex set, separately, so that Lean needs no string splitting
 			set := map[string]bool{}
@@ -102,6 +106,24 @@ func init() {
 				cs = append(cs, c)
 			}
 			emit("globalArgCallees", "distinct `callee#argIndex` receiving a package-level slice/map", cs)
+		}
+		emit("aliasViolations", "writes / escapes through anything derived from a package-level slice, map or pointer (local aliases, re-slices, struct fields, parameters of callees in the module and in parse/v2, returned values): must be empty", aliasViolations)
+		{
+			sort.Slice(leaves, func(i, j int) bool {
+				if leaves[i].callee != leaves[j].callee {
+					return leaves[i].callee < leaves[j].callee
+				}
+				return leaves[i].idx < leaves[j].idx
+			})
+			fmt.Fprintf(&b, "/-- calls that leave the analysed code (standard library, interface methods, values of named function types) with an argument derived from a package-level slice/map: `(callee, argument index)`, -1 = receiver -/\ndef globalArgLeaves : List (String × Int) := [\n")
+			for i, l := range leaves {
+				sep := ","
+				if i == len(leaves)-1 {
+					sep = ""
+				}
+				fmt.Fprintf(&b, "  (%s, %d)%s\n", leanStr(l.callee), l.idx, sep)
+			}
+			b.WriteString("]\n\n")
 		}
 		emit("optionWrites", "writes through the receiver of a Minify method: `pkg.Type.field dominated|UNDOMINATED`", optionWrites)
 		emit("mapRanges", "range statements over maps: `pkg.func: expr`", mapRanges)
@@ -187,9 +209,8 @@ func c13Package(p *packages.Package, short string, globalWrites, appendBases, gl
 				case *ast.AssignStmt:
 					if short == "minify" {
 						for _, lhs := range x.Lhs {
-							t := exprText(p.Fset, lhs)
-							if strings.HasPrefix(t, "m.literal") || strings.HasPrefix(t, "m.pattern") || strings.HasPrefix(t, "m.URL") {
-								*registryWrites = append(*registryWrites, fmt.Sprintf("%s: %s", fname, t))
+							if f := c13RegistryField(info, lhs); f != "" {
+								*registryWrites = append(*registryWrites, fmt.Sprintf("%s: %s", fname, f))
 							}
 						}
 					}
@@ -213,7 +234,11 @@ func c13Package(p *packages.Package, short string, globalWrites, appendBases, gl
 				case *ast.RangeStmt:
 					if t := info.TypeOf(x.X); t != nil {
 						if _, ok := t.Underlying().(*types.Map); ok {
-							*mapRanges = append(*mapRanges, fmt.Sprintf("%s.%s: %s", short, fname, exprText(p.Fset, x.X)))
+							kind := "ORDER-DEPENDENT"
+							if c13OrderInsensitive(info, x.Body.List) {
+								kind = "order-insensitive"
+							}
+							*mapRanges = append(*mapRanges, fmt.Sprintf("%s.%s: range over %s %s", short, fname, types.TypeString(t, func(p *types.Package) string { return p.Name() }), kind))
 						}
 					}
 				case *ast.GoStmt:
@@ -222,11 +247,15 @@ func c13Package(p *packages.Package, short string, globalWrites, appendBases, gl
 					*nondet = append(*nondet, fmt.Sprintf("%s.%s: select", short, fname))
 				case *ast.CallExpr:
 					callee := exprText(p.Fset, x.Fun)
+					fnObj := calleeOf(info, x)
+					if fnObj != nil {
+						callee = shortFuncName(fnObj)
+					}
 					if id, ok := x.Fun.(*ast.Ident); ok {
 						if _, isBuiltin := info.Uses[id].(*types.Builtin); isBuiltin {
 							if id.Name == "append" && len(x.Args) > 0 {
 								if v, ok := baseGlobal(x.Args[0]); ok {
-									*appendBases = append(*appendBases, fmt.Sprintf("%s.%s in %s", short, v.Name(), fname))
+									*appendBases = append(*appendBases, fmt.Sprintf("%s.%s", short, v.Name()))
 								}
 							}
 							if id.Name == "copy" && len(x.Args) > 0 {
@@ -242,11 +271,14 @@ func c13Package(p *packages.Package, short string, globalWrites, appendBases, gl
 							return true
 						}
 					}
-					if callee == "os.Getenv" || callee == "time.Now" || callee == "os.LookupEnv" || strings.HasPrefix(callee, "rand.") {
-						*nondet = append(*nondet, fmt.Sprintf("%s.%s: %s", short, fname, callee))
+					if fnObj != nil && fnObj.Pkg() != nil {
+						pp := fnObj.Pkg().Path()
+						if callee == "os.Getenv" || callee == "time.Now" || callee == "os.LookupEnv" || callee == "os.Environ" || pp == "math/rand" || pp == "math/rand/v2" || pp == "crypto/rand" {
+							*nondet = append(*nondet, fmt.Sprintf("%s.%s: %s", short, fname, callee))
+						}
 					}
-					if short == "minify" && strings.Contains(callee, ".mutex.") {
-						locks = append(locks, callee[strings.LastIndex(callee, ".")+1:])
+					if op := c13LockOp(info, x); short == "minify" && op != "" {
+						locks = append(locks, op)
 					}
 					for i, a := range x.Args {
 						if v, ok := baseGlobal(a); ok {
@@ -274,9 +306,8 @@ func c13Package(p *packages.Package, short string, globalWrites, appendBases, gl
 						}
 					}
 				case *ast.DeferStmt:
-					callee := exprText(p.Fset, x.Call.Fun)
-					if short == "minify" && strings.Contains(callee, ".mutex.") {
-						locks = append(locks, "defer "+callee[strings.LastIndex(callee, ".")+1:])
+					if op := c13LockOp(info, x.Call); short == "minify" && op != "" {
+						locks = append(locks, "defer "+op)
 						return false
 					}
 				}
@@ -405,4 +436,246 @@ func c13OptionWrites(p *packages.Package, short, fname string, blk *ast.BlockStm
 			return true
 		})
 	}
+}
+
+// c13Alias runs the may-alias analysis (alias.go) with every package-level slice / map / pointer variable of the library
+// packages as a source.
+func c13Alias(r *Repo) ([]string, []aliasLeaf, error) {
+	e, err := r.TEnv()
+	if err != nil {
+		return nil, nil, err
+	}
+	a := newAliasAnalysis(e)
+	isLibGlobal := func(obj types.Object) bool {
+		v, ok := obj.(*types.Var)
+		if !ok || v.IsField() || v.Pkg() == nil || v.Parent() != v.Pkg().Scope() {
+			return false
+		}
+		_, lib := libPkgs[v.Pkg().Path()]
+		return lib
+	}
+	a.exemptAppendBase = func(info *types.Info, x ast.Expr) bool {
+		for {
+			switch v := unparen(x).(type) {
+			case *ast.SliceExpr:
+				x = v.X
+				continue
+			case *ast.Ident:
+				return isLibGlobal(info.Uses[v])
+			case *ast.SelectorExpr:
+				return isLibGlobal(info.Uses[v.Sel])
+			}
+			return false
+		}
+	}
+	var paths []string
+	for path := range libPkgs {
+		paths = append(paths, path)
+	}
+	sort.Strings(paths)
+	for _, path := range paths {
+		p, ok := e.byPath[path]
+		if !ok {
+			return nil, nil, fmt.Errorf("library package %s not loaded", path)
+		}
+		sc := p.Types.Scope()
+		for _, n := range sc.Names() {
+			v, ok := sc.Lookup(n).(*types.Var)
+			if !ok {
+				continue
+			}
+			switch v.Type().Underlying().(type) {
+			case *types.Slice, *types.Map:
+				label := libPkgs[path] + "." + n
+				a.seed(v, lvD|lvG, label)
+				if isByteSlice(v.Type()) && !e.reassigned(v) {
+					if init, dp, err := e.Init(v); err == nil {
+						if s, err := e.Bytes(dp, init); err == nil {
+							a.seedLen[label] = len(s)
+						}
+					}
+				}
+			}
+		}
+	}
+	a.run()
+	var viol []string
+	for v := range a.viol {
+		viol = append(viol, v)
+	}
+	sort.Strings(viol)
+	var leaves []aliasLeaf
+	for l := range a.leaves {
+		leaves = append(leaves, l)
+	}
+	return viol, leaves, nil
+}
+
+// c13RegistryField: the assigned location is (an element of) a field of the registry struct minify.M — whatever the receiver
+// or key is called: `m.literal[mimetype] = …` gives "literal[_]", `m.pattern = …` gives "pattern"
+func c13RegistryField(info *types.Info, lhs ast.Expr) string {
+	suffix := ""
+	for {
+		switch v := unparen(lhs).(type) {
+		case *ast.IndexExpr:
+			suffix = "[_]"
+			lhs = v.X
+			continue
+		case *ast.StarExpr:
+			lhs = v.X
+			continue
+		case *ast.SelectorExpr:
+			sel, ok := info.Selections[v]
+			if !ok || sel.Kind() != types.FieldVal {
+				return ""
+			}
+			rt := sel.Recv()
+			if pt, ok := rt.Underlying().(*types.Pointer); ok {
+				rt = pt.Elem()
+			}
+			if nt, ok := types.Unalias(rt).(*types.Named); ok && nt.Obj().Name() == "M" && nt.Obj().Pkg() != nil && nt.Obj().Pkg().Path() == modPath {
+				if _, isMutex := sel.Obj().Type().Underlying().(*types.Struct); isMutex {
+					return ""
+				}
+				return sel.Obj().Name() + suffix
+			}
+			return ""
+		}
+		return ""
+	}
+}
+
+// c13LockOp: a Lock/Unlock/RLock/RUnlock call on a sync.Mutex / sync.RWMutex that is a field of the registry struct
+func c13LockOp(info *types.Info, call *ast.CallExpr) string {
+	sel, ok := unparen(call.Fun).(*ast.SelectorExpr)
+	if !ok {
+		return ""
+	}
+	s, ok := info.Selections[sel]
+	if !ok || s.Kind() != types.MethodVal {
+		return ""
+	}
+	fn, ok := s.Obj().(*types.Func)
+	if !ok || fn.Pkg() == nil || fn.Pkg().Path() != "sync" {
+		return ""
+	}
+	switch fn.Name() {
+	case "Lock", "Unlock", "RLock", "RUnlock", "TryLock", "TryRLock":
+	default:
+		return ""
+	}
+	inner, ok := unparen(sel.X).(*ast.SelectorExpr)
+	if !ok {
+		return ""
+	}
+	fs, ok := info.Selections[inner]
+	if !ok || fs.Kind() != types.FieldVal {
+		return ""
+	}
+	rt := fs.Recv()
+	if pt, ok := rt.Underlying().(*types.Pointer); ok {
+		rt = pt.Elem()
+	}
+	if nt, ok := types.Unalias(rt).(*types.Named); ok && nt.Obj().Name() == "M" && nt.Obj().Pkg() != nil && nt.Obj().Pkg().Path() == modPath {
+		return fn.Name()
+	}
+	return ""
+}
+
+// c13OrderInsensitive: the body of a range over a map only does things whose combined effect does not depend on the
+// iteration order: stores into map elements, deletes, integer counters, `continue`, and ifs over such statements whose
+// conditions call nothing but len/cap and conversions.
+func c13OrderInsensitive(info *types.Info, list []ast.Stmt) bool {
+	pure := func(e ast.Expr) bool {
+		ok := true
+		ast.Inspect(e, func(n ast.Node) bool {
+			if c, isCall := n.(*ast.CallExpr); isCall {
+				if tv, has := info.Types[c.Fun]; has && tv.IsType() {
+					return true
+				}
+				if id, isId := unparen(c.Fun).(*ast.Ident); isId {
+					if _, isB := info.Uses[id].(*types.Builtin); isB && (id.Name == "len" || id.Name == "cap") {
+						return true
+					}
+				}
+				ok = false
+			}
+			if _, isLit := n.(*ast.FuncLit); isLit {
+				ok = false
+			}
+			return ok
+		})
+		return ok
+	}
+	isInt := func(e ast.Expr) bool {
+		t := info.TypeOf(e)
+		if t == nil {
+			return false
+		}
+		b, ok := t.Underlying().(*types.Basic)
+		return ok && b.Info()&types.IsInteger != 0
+	}
+	for _, st := range list {
+		switch s := st.(type) {
+		case *ast.AssignStmt:
+			for i, l := range s.Lhs {
+				l = unparen(l)
+				if id, ok := l.(*ast.Ident); ok && id.Name == "_" {
+					continue
+				}
+				if ix, ok := l.(*ast.IndexExpr); ok && s.Tok == token.ASSIGN {
+					if t := info.TypeOf(ix.X); t != nil {
+						if _, isMap := t.Underlying().(*types.Map); isMap && pure(ix.Index) && i < len(s.Rhs) && pure(s.Rhs[i]) {
+							continue
+						}
+					}
+				}
+				if (s.Tok == token.ADD_ASSIGN || s.Tok == token.OR_ASSIGN || s.Tok == token.AND_ASSIGN || s.Tok == token.XOR_ASSIGN) && isInt(l) && i < len(s.Rhs) && pure(s.Rhs[i]) {
+					if _, isId := l.(*ast.Ident); isId {
+						continue
+					}
+				}
+				return false
+			}
+		case *ast.IncDecStmt:
+			if _, isId := unparen(s.X).(*ast.Ident); !isId || !isInt(s.X) {
+				return false
+			}
+		case *ast.ExprStmt:
+			c, ok := s.X.(*ast.CallExpr)
+			if !ok {
+				return false
+			}
+			id, ok := unparen(c.Fun).(*ast.Ident)
+			if !ok {
+				return false
+			}
+			if _, isB := info.Uses[id].(*types.Builtin); !isB || id.Name != "delete" {
+				return false
+			}
+		case *ast.BranchStmt:
+			if s.Tok != token.CONTINUE || s.Label != nil {
+				return false
+			}
+		case *ast.IfStmt:
+			if s.Init != nil || !pure(s.Cond) || !c13OrderInsensitive(info, s.Body.List) {
+				return false
+			}
+			switch e := s.Else.(type) {
+			case nil:
+			case *ast.BlockStmt:
+				if !c13OrderInsensitive(info, e.List) {
+					return false
+				}
+			case *ast.IfStmt:
+				if !c13OrderInsensitive(info, []ast.Stmt{e}) {
+					return false
+				}
+			}
+		case *ast.EmptyStmt:
+		default:
+			return false
+		}
+	}
+	return true
 }
